@@ -845,16 +845,32 @@ class Fn:
             if len(rets) != 1:
                 raise Unsupported("dispatched methods of different result types")
             union = self.effects(e)
-            v = self.fresh()
-            pat = "(" + ", ".join([v] + [lname(x) for x in union]) + ")" if union else v
-            lines = [f"let {pat} ← (match PyT.dispatchFind {self.dispatch_table(f.value.id)} {k} with"]
+            # the selection is its own definition (`<fn>.dispatchN`), so that it can be reasoned about apart from the loop
+            self.ndispatch = getattr(self, "ndispatch", 0) + 1
+            dname = f"{self.name}.dispatch{self.ndispatch}"
+            argnames: list[str] = []
+            for _, m in table:
+                for a in self.state_call_names(self.registry[m])[0]:
+                    if a not in argnames:
+                        argnames.append(a)
+            for a in argnames + union:
+                if a not in env:
+                    raise Unsupported(f"{a} is not bound at the dispatch call")
+            argnames += [x for x in union if x not in argnames]
+            rty = lean_type(("tuple", [next(iter(rets))] + [env[x] for x in union])) if union else lean_type(next(iter(rets)))
+            lines = [f"def {dname} " + " ".join(f"({lname(a)} : {lean_type(env[a])})" for a in argnames) +
+                     f" (key : Text) : PyM {rty} :=",
+                     f"  match PyT.dispatchFind {self.dispatch_table(f.value.id)} key with"]
             for i, (_, m) in enumerate(table):
                 sub: list[str] = []
                 r = self.emit_state_call(self.registry[m], env, sub)
                 tup = "(" + ", ".join([r] + [lname(x) for x in union]) + ")" if union else r
                 lines += [f"  | some {i} => (do"] + self.ind(self.ind(sub + [f"pure {tup}"])) + ["    )"]
-            lines.append("  | _ => throw .KeyError)")
-            pre.extend(lines)
+            lines.append("  | _ => throw .KeyError")
+            self.aux.append("\n".join(lines))
+            v = self.fresh()
+            pat = "(" + ", ".join([v] + [lname(x) for x in union]) + ")" if union else v
+            pre.append(f"let {pat} ← {dname} " + " ".join(lname(a) for a in argnames) + f" {k}")
             return v, rets.pop()
         if isinstance(f, ast.Attribute):
             # Token.make_subexp(…) / cls.make_subexp(…) / self.make_subexp(…) on a Token: a classmethod
@@ -1148,7 +1164,7 @@ class Fn:
 
     def defined_on_all_paths(self, mods, blocks, envs0, loop):
         """those of `mods` that are bound at the end of every one of the blocks (a dry run of each block; counters restored)"""
-        saved = (self.tmp, list(self.aux), self.nloop, getattr(self, "nloop_for", 0))
+        saved = (self.tmp, list(self.aux), self.nloop, getattr(self, "nloop_for", 0), getattr(self, "ndispatch", 0))
         ends = []
 
         def probe(e2):
@@ -1156,7 +1172,7 @@ class Fn:
             return ["pure ()"]
         for b, e0 in zip(blocks, envs0):
             self.block(b, e0, probe, loop)
-        self.tmp, self.aux, self.nloop, self.nloop_for = saved[0], saved[1], saved[2], saved[3]
+        self.tmp, self.aux, self.nloop, self.nloop_for, self.ndispatch = saved
         return [m for m in mods if all(m in e2 for e2 in ends)]
 
     def try_stmt(self, s, env, cont, loop):
